@@ -3227,6 +3227,7 @@ func (pc *PeerConnection) generateMatchedSDP(
 			if !includeUnmatched {
 				// We are answering, the direction has to be a response to the offered one
 				section.offered = direction
+				section.offeredPayloadTypes = payloadTypesFromMediaDescription(media)
 			}
 			mediaSections = append(mediaSections, section)
 		}
